@@ -153,6 +153,13 @@ LPCurIs(p, cur) ==
          ELSE LPFail(p, "lane-map-differs-from-the-operations-applied")
     ELSE IF cur = p.cur THEN p ELSE LPFail(p, "lane-value-differs-from-the-operations-applied")
 
+\* a request of remote id has been answered; when it was the last one the window is closed (and forgotten)
+LPAnswered(p, id) ==
+    IF p.out[id] > 1 THEN [p EXCEPT !.out[id] = @ - 1]
+    ELSE [p EXCEPT !.out[id] = 0, !.adm[id] = {}, !.rv[id] = -1,
+                   !.madm[id] = [k \in LPKeys(p) |-> {}], !.mrep[id] = PZero(LPKeys(p)),
+                   !.stale[id] = FALSE, !.sawStale[id] = FALSE]
+
 \* ---- one frame decoded from the lane's buffer -------------------------------------------------
 LPNoRequest(p, f) == f.id \notin LPIds(p) \/ p.out[f.id] = 0
 
@@ -179,12 +186,21 @@ LPValFrame(p, f) ==
         IF LPNoRequest(p, f) THEN LPFail(p, "synced-without-request")
         ELSE IF p.kind \in {"value", "demand"} /\ (p.rv[f.id] = -1 \/ p.rv[f.id] \notin p.adm[f.id])
              THEN LPFail(p, "synced-but-the-remote-holds-no-value-of-the-window")
-        ELSE [p EXCEPT !.out[f.id] = @ - 1]
+        ELSE LPAnswered(p, f.id)
     ELSE LPFail(p, "undecodable-frame")
+
+\* MapReplica counts the lane clears the consumer has not been told of; clears coalesce in the lane's queue (two clears,
+\* one event), which leaves a residue in that counter for ever.  A count above the number of clears still ahead of some key
+\* changes no verdict of PObs (no key can be moved onto such a clear, and a clear event is tolerated once the lane has been
+\* cleared at all), so it is cut back: the ghost state stays bounded by the lag.
+LPMax(S) == IF S = {} THEN 0 ELSE CHOOSE x \in S : \A y \in S : y <= x
+LPNorm(mp) ==
+    LET ahead == LPMax({PClrCount(Tail(mp.cons["L"].adm[k])) : k \in PKeys(mp)}) IN
+    IF mp.cons["L"].pend > ahead THEN [mp EXCEPT !.cons["L"].pend = ahead] ELSE mp
 
 LPMapFrame(p, f) ==
     IF f.t = "event" THEN
-        LET mp2 == PObs(p.mp, "L", f.op, f.k, f.v)
+        LET mp2 == LPNorm(PObs(p.mp, "L", f.op, f.k, f.v))
             clr == f.op = "clr" IN
         IF ~mp2.cons["L"].ok THEN LPFail([p EXCEPT !.mp = mp2], "map-event-not-admissible")
         ELSE [p EXCEPT !.mp = mp2,
@@ -203,9 +219,9 @@ LPMapFrame(p, f) ==
     ELSE IF f.t = "synced" THEN
         IF LPNoRequest(p, f) THEN LPFail(p, "synced-without-request")
         ELSE LET bad == {k \in LPKeys(p) : p.mrep[f.id][k] \notin p.madm[f.id][k]} IN
-             IF bad = {} THEN [p EXCEPT !.out[f.id] = @ - 1]
+             IF bad = {} THEN LPAnswered(p, f.id)
              ELSE IF "F12" \in p.en /\ p.sawStale[f.id] /\ \A k \in bad : p.mrep[f.id][k] = 0
-                  THEN [p EXCEPT !.out[f.id] = @ - 1, !.kf = @ \cup {[case |-> p.case, id |-> "F12"]}]
+                  THEN LPAnswered([p EXCEPT !.kf = @ \cup {[case |-> p.case, id |-> "F12"]}], f.id)
              ELSE LPFail(p, "synced-but-the-window-replica-holds-what-the-lane-never-held-inside-the-window")
     ELSE LPFail(p, "undecodable-frame")
 
